@@ -105,6 +105,10 @@ def main():
                     if n in env:
                         kwargs[n] = env[n]
                 result = fn(*args, **kwargs)
+        except S.AssumptionViolated:
+            out["error"] = "witness violates a harness assumption natively"
+            print("REPLAY-RESULT " + json.dumps(out, default=str))
+            return
         except Exception as e:  # the real code raised
             exc = e
         out["inputs"] = B.describe(old)
@@ -119,7 +123,10 @@ def main():
                             spec = v
                     except AttributeError:
                         pass
-            if spec is None:
+            if S.CHECK_FAILURES:
+                out["reproduced"] = True
+                out["violated"] = ["check[%s]" % nm for nm in S.CHECK_FAILURES] + ["no-raise[%s]" % cls]
+            elif spec is None:
                 out["reproduced"] = True
                 out["violated"] = ["no-raise[%s]" % cls]
             elif spec is True:
@@ -140,6 +147,8 @@ def main():
             for pname, pt in params.items():
                 for b in B.check_native_inv(env[pname], pt):
                     bad.append("inv" + b)
+            for nm in S.CHECK_FAILURES:
+                bad.append("check[%s]" % nm)
             out["violated"] = bad
             # the recorded obligation names one clause; any violated clause of the same contract counts
             out["reproduced"] = bool(bad)
